@@ -305,6 +305,23 @@ def c03(tr, acc, case):
         if not bad:
             acc.hit("idle_publication_clean")
             clean_idle_pubs.append(p)
+    # (d) a scheduled wakeup (delayed retry / waiter timeout) that is overdue when the run went quiet for good
+    if tr.quiescent and tr.outcome is None and not tr.extra.get("runaway"):
+        for rn in tr.runners[-1:]:
+            try:
+                overdue = [(type(t[2]).__name__, t[0]) for t in rn.scheduled_wakeups]
+            except Exception:  # noqa: BLE001
+                overdue = []
+            acc.hit("quiet_unfinished_run_eval")
+            late = [x for x in overdue if x[0] in ("TickAddEvent", "TickWaiterTimeout", "TickTimeout")]
+            if late:
+                acc.violation({"mech": "scheduled_wakeup_never_fired", "tick": late[0][0]},
+                              f"the run went quiet for good at vt={tr.vt_end} without finishing while its wakeup heap still holds {late} (due times in runtime clock)", case)
+    meta = (case.get("case") or {}).get("spec", {}).get("meta", {}) if isinstance(case, dict) else {}
+    if meta.get("retry_due") is not None:
+        b1 = [b for b in tr.bodies() if b["step"] == "flaky" and b["att"] == 1]
+        if b1 and b1[0]["t0"] > meta["retry_due"] + 1e-6:
+            acc.hit("retry_overdue_when_loop_regained_control")
     # (c) black box cross-check for idle announcements that looked clean: no body may start afterwards
     #     without a new external input, except a waiter-timeout replay
     ext_uids = {r["uid"] for r in tr.rec.of("emit") if r["how"] == "external"}
